@@ -29,6 +29,8 @@ def main():
                 subprocess.run(["git", "-C", work, "apply"], input=diff, check=True)
             r = subprocess.run(["git", "-C", work, "apply", patch], capture_output=True, text=True)
             if r.returncode != 0:
+                r = subprocess.run(["git", "-C", work, "apply", "-3", patch], capture_output=True, text=True)
+            if r.returncode != 0:
                 results.append((name, "PATCH-FAILED", r.stderr.strip()[:200]))
                 continue
             tests = ""
